@@ -82,8 +82,6 @@ def differential_evolution(
 
     if initial_population is not None:
         for ind in initial_population:
-            if len(population) >= pop_size:
-                break
             population.append(clip(list(ind)))
 
     # Fill remaining with random individuals
@@ -92,6 +90,12 @@ def differential_evolution(
         population.append(individual)
 
     fitness = [evaluate(ind) for ind in population]
+
+    if len(population) > pop_size:
+        # More warm-start points than slots: every one of them was evaluated, the best pop_size stay
+        keep = sorted(range(len(population)), key=lambda i: fitness[i])[:pop_size]
+        population = [population[i] for i in keep]
+        fitness = [fitness[i] for i in keep]
 
     # Track best
     best_idx = min(range(pop_size), key=lambda i: fitness[i])
